@@ -15,6 +15,7 @@ import (
 	"example.com/scion-time/core/client"
 	"example.com/scion-time/core/server"
 	"example.com/scion-time/net/ntp"
+	"example.com/scion-time/net/scion"
 	"example.com/scion-time/net/udp"
 
 	"verif.local/kit"
@@ -403,6 +404,94 @@ func programSCIONNTS(r *mc.Run, cat []mut) func(x *mc.X) {
 				x.Failf("success-without-exchange", "the call returned an offset without evaluating any response")
 			}
 			x.Observe(err == nil, len(flt.Calls)-nflt)
+		})
+	}
+}
+
+// ---------------------------------------------------------------- SCION with packet authentication
+
+// programSCIONAuth: a SCIONClient with DRKey packet authentication enabled
+// against the authenticating listener. The listener's genuine (authenticated)
+// response is delivered with its source / destination ISD-AS or host rewritten
+// and the authenticator left as it is: whatever the authenticator covers, a
+// datagram that does not come from the queried ISD-AS and host, or is not
+// addressed to the client, must not yield an offset.
+func programSCIONAuth(r *mc.Run) func(x *mc.X) {
+	otherIA := addr.MustParseIA("1-ff00:0:999")
+	kinds := []struct {
+		name  string
+		apply func(p *kit.Pkt)
+		ok    bool
+	}{
+		{"genuine", func(p *kit.Pkt) {}, true},
+		{"src-ia-wrong", func(p *kit.Pkt) { p.SrcIA = otherIA }, false},
+		{"dst-ia-wrong", func(p *kit.Pkt) { p.DstIA = otherIA }, false},
+		{"src-host-wrong", func(p *kit.Pkt) { p.SrcHost = netip.MustParseAddr("10.0.0.9") }, false},
+		{"dst-host-wrong", func(p *kit.Pkt) { p.DstHost = netip.MustParseAddr("10.0.0.77") }, false},
+	}
+	return func(x *mc.X) {
+		world.Run(r.T, x, func(w *world.World) {
+			server.VerifResetTSS()
+			sw := kit.NewSCIONWorld(w, kit.SrvHost, true, nil)
+			flt := &kit.RecFilter{}
+			sc := &client.SCIONClient{Log: w.Log, Filter: flt}
+			sc.Auth.Enabled = true
+			sc.Auth.DRKeyFetcher = scion.NewFetcher(sw.Daemon)
+			local := udp.UDPAddr{IA: kit.CliIA, Host: &net.UDPAddr{IP: kit.CliHost.AsSlice()}}
+			remote := udp.UDPAddr{IA: kit.SrvIA, Host: &net.UDPAddr{IP: kit.SrvHost.AsSlice(), Port: kit.SrvPort}}
+			spath := kit.PathSpec{Kind: "scion", Segs: []int{2, 2}}.SnetPath(kit.CliIA, kit.SrvIA, net.UDPAddrFromAddrPort(kit.Router))
+			ctx, cancel := context.WithTimeout(context.Background(), time.Second)
+			th := w.Go("client", func() {
+				client.MeasureClockOffsetSCION(ctx, w.Log, []*client.SCIONClient{sc}, local, remote, []snet.Path{spath})
+			})
+			defer func() {
+				cancel()
+				for i := 0; i < 10 && !th.Finished(); i++ {
+					w.Advance(time.Second)
+				}
+				w.Settle()
+			}()
+			w.Settle()
+			w.CheckPanics()
+			var sock *vnet.UDPConn
+			for _, s := range w.Net.Open() {
+				if s != sw.Svc && s != sw.EH && !s.Closed() && s.Reading.Load() {
+					sock = s
+				}
+			}
+			reqs := w.Net.SentSince(0)
+			if sock == nil || len(reqs) == 0 {
+				x.Failf("harness", "authenticating client sent no request")
+			}
+			out := sw.Send(sw.Svc, kit.Router, reqs[len(reqs)-1].Data)
+			if len(out) != 1 {
+				x.Failf("harness", "listener wrote %d datagrams for the authenticated request", len(out))
+			}
+			gen, perr := kit.Parse(out[0].Data)
+			if perr != nil || gen.UDP == nil || gen.E2E == nil {
+				x.Failf("harness", "reply of the listener: %v", perr)
+			}
+			for k := 0; k < 2 && !sock.Closed() && !th.Finished(); k++ {
+				kd := kinds[x.Choose(len(kinds), fmt.Sprintf("datagram%d", k))]
+				sh, _ := netip.AddrFromSlice(gen.SCION.RawSrcAddr)
+				dh, _ := netip.AddrFromSlice(gen.SCION.RawDstAddr)
+				pk := &kit.Pkt{SrcIA: gen.SCION.SrcIA, DstIA: gen.SCION.DstIA, SrcHost: sh, DstHost: dh, RawPath: gen.RawPath, PathType: gen.SCION.PathType,
+					L4: "udp", SrcPort: gen.UDP.SrcPort, DstPort: gen.UDP.DstPort, Payload: gen.UDP.Payload, E2E: gen.E2E.Options, TrafficClass: gen.SCION.TrafficClass}
+				kd.apply(pk)
+				nf := len(flt.Calls)
+				x.Logf("peer sends authenticated response, %s", kd.name)
+				sock.Deliver(&vnet.Datagram{From: kit.Router, To: sock.Local(), Data: pk.Bytes(), RxTime: w.Clock.Peek(), Tag: kd.name})
+				w.Settle()
+				w.CheckPanics()
+				x.Transitions++
+				if len(flt.Calls) > nf && !kd.ok {
+					x.Failf("unjustified-acceptance", "authenticating SCION client evaluated the response %q (carrying the server's authenticator) although it does not come from the queried ISD-AS / host or is not addressed to the client", kd.name)
+				}
+				if len(flt.Calls) == nf && kd.ok && k == 0 {
+					x.Failf("genuine-response-rejected", "the listener's authenticated response, rebuilt unchanged, was not accepted")
+				}
+			}
+			x.Observe(len(flt.Calls))
 		})
 	}
 }
